@@ -16,6 +16,7 @@ TASKS_PER_CHILD = 6
 
 NT = TStruct("nt_t", (TField("x", INTS["uint8"]), TField("y", INTS["uint16"])))
 EN = TEnum("En", INTS["uint8"], (("A", 1), ("B", 2)))
+UN17 = TStruct("un17_t", (TField("w", INTS["uint16"]), TField("b", TArr(INTS["uint8"], 2))), union=True)
 
 # kind -> (list of TField templates (name suffix, type, bits), values per sub-field [zero, nz1, nz2], always-truthy?)
 KINDS = {
@@ -29,6 +30,9 @@ KINDS = {
     "bits": ([("a", INTS["uint8"], 4), ("b", INTS["uint8"], 4)], [[0, 5, 15], [0, 15, 1]]),
     "anon": ([("", "ANON", None)], [[{"p": 0, "q": 0}, {"p": 3, "q": 4}, {"p": 0, "q": 9}]]),
     "ptr": ([("", TPtr(INTS["uint8"]), None)], [[0, 8, 1]]),
+    "arrs": ([("", TArr(NT, 2), None)], [[[{"x": 0, "y": 0}, {"x": 0, "y": 0}], [{"x": 1, "y": 2}, {"x": 3, "y": 4}], [{"x": 0, "y": 0}, {"x": 0, "y": 9}]]]),
+    "a2d": ([("", TArr(TArr(INTS["uint8"], 2), 2), None)], [[[[0, 0], [0, 0]], [[1, 2], [3, 4]], [[0, 0], [0, 7]]]]),
+    "un": ([("", UN17, None)], [[0, 0x0102, 0xFF00]]),  # value = the union's member w (little-endian bytes are derived)
 }
 KIND_LIST = list(KINDS)
 
@@ -57,13 +61,21 @@ def mk_impl_value(cs, kind, v):
         return cs.nt_t(x=v["x"], y=v["y"])
     if kind == "enum":
         return cs.En(v)
+    if kind == "un":
+        return cs.un17_t(w=v)
+    if kind == "arrs":
+        return [cs.nt_t(x=e["x"], y=e["y"]) for e in v]
+    if kind == "a2d":
+        return [list(r) for r in v]
     return v
 
 
 def plain_truthy(kind, v):
+    if kind == "un":
+        return True  # a union holds a (non-empty) array member
     if kind == "nest":
         return bool(v["x"]) or bool(v["y"])
-    if kind in ("c2", "a2"):
+    if kind in ("c2", "a2", "arrs", "a2d"):
         return True  # non-empty bytes / list objects are truthy (DESIGN 7.9)
     return bool(v)
 
@@ -107,7 +119,7 @@ def check_struct(kinds, res: JobResult, tier, align=False, compiled=False, endia
     T = cs.T
     res.transitions += 2
     n = len(slots)
-    hashable = not any(s[2] == "a2" for s in slots)
+    hashable = not any(s[2] in ("a2", "un", "arrs", "a2d") for s in slots)  # list-valued fields (and unions holding one) make an instance unhashable
     raw_names = [f._name for f in T.__fields__]
     # ---- all instances over {zero, nz1, nz2}^n (capped to the deviation-2 ball for large n)
     if n <= 4:
@@ -139,7 +151,7 @@ def check_struct(kinds, res: JobResult, tier, align=False, compiled=False, endia
         # dumps = model encoding of exactly these values (data bits), zero elsewhere  -> "exactly the bytes of that field" for any assignment
         try:
             out = obj.dumps()
-            enc = codec.encode_struct(st, _enc_vals(st, mv), cfg)
+            enc = codec.encode_struct(st, _enc_vals(st, mv, cfg.bo), cfg)
             _, _, mask = decode_with_mask(st, enc, cfg)
             if len(out) != len(enc) or any(((out[i] ^ enc[i]) & mask[i]) or (out[i] & ~mask[i] & 0xFF) for i in range(len(enc))):
                 issue("dumps:not-local", f"values {mv}: dumps {out.hex()}, model {enc.hex()} mask {mask.hex()}", choice=list(ch))
@@ -216,8 +228,50 @@ def check_struct(kinds, res: JobResult, tier, align=False, compiled=False, endia
     z = T()
     zn = impl.norm(z)
     for s in slots:
+        if s[2] == "un":
+            if zn.get(s[0]) != {"w": 0, "b": [0, 0]}:
+                issue("default:not-zero", f"default instance has {s[0]} = {zn.get(s[0])!r}")
+            continue
         if not _plain_eq(zn.get(s[0]), s[1][0]) and not (s[2] == "flt" and zn.get(s[0]) == 0.0):
             issue("default:not-zero", f"default instance has {s[0]} = {zn.get(s[0])!r}, zero value {s[1][0]!r}")
+    # ---- assigning below field level on a DEFAULT instance (element of an array, field of a nested struct) changes exactly those bytes
+    inplace = {"nest": (lambda o, n: setattr(getattr(o, n), "x", 0xAA), lambda v: v.__setitem__("x", 0xAA)),
+               "a2": (lambda o, n: getattr(o, n).__setitem__(0, 0xAA), lambda v: v.__setitem__(0, 0xAA)),
+               "arrs": (lambda o, n: setattr(getattr(o, n)[0], "x", 0xAA), lambda v: v[0].__setitem__("x", 0xAA)),
+               "a2d": (lambda o, n: getattr(o, n)[1].__setitem__(0, 0xAA), lambda v: v[1].__setitem__(0, 0xAA))}
+    import copy as _copy
+
+    for s_ in slots:
+        if s_[2] in inplace:
+            d = T()
+            mv = {k: _copy.deepcopy(v) for k, v in model_vals(slots, tuple(0 for _ in slots)).items()}  # per-field copies (no aliasing between fields)
+            try:
+                inplace[s_[2]][0](d, s_[0])
+                inplace[s_[2]][1](mv[s_[0]])
+                out = d.dumps()
+                enc = codec.encode_struct(st, _enc_vals(st, mv, cfg.bo), cfg)
+                _, _, mask = decode_with_mask(st, enc, cfg)
+                res.evaluations += 1
+                if len(out) != len(enc) or any(((out[i] ^ enc[i]) & mask[i]) or (out[i] & ~mask[i] & 0xFF) for i in range(len(enc))):
+                    issue("inplace:not-local", f"default instance, in-place assignment inside field {s_[0]} ({s_[2]}): dumps {out.hex()}, expected {enc.hex()}")
+                fresh = T()
+                if impl.norm(fresh) != impl.norm(T.__call__()) or bool(fresh) != bool(T()) or not same(impl.norm(fresh), impl.norm(z)):
+                    issue("inplace:default-changed", f"after an in-place assignment inside field {s_[0]} of one default instance, a new default instance is {impl.norm(fresh)}")
+            except Exception as e:  # noqa: BLE001
+                issue("inplace:raises", f"field {s_[0]}: {impl.exc_sig(e)} {e!r}")
+    # ---- a default instance equals the instance parsed from all-zero bytes; a constructed instance equals the one parsed from its dump
+    try:
+        size = T.size
+        if size is not None:
+            pz = T(bytes(size))
+            if not (z == pz) or not (pz == z) or (hashable and hash(z) != hash(pz)) or bool(z) != bool(pz):
+                issue("eq:default-vs-parsed-zeros", f"T() and T(bytes({size})) differ in ==/hash/bool although all fields are equal: {impl.norm(z)} / {impl.norm(pz)}")
+        for ch, obj, mv in insts[:: max(1, len(insts) // 6)]:
+            back = T(obj.dumps())
+            if "nan" not in repr(mv) and (not (back == obj) or not (obj == back) or (hashable and hash(back) != hash(obj))):
+                issue("eq:constructed-vs-parsed", f"an instance with values {mv} and the instance parsed from its dump differ in ==/hash", choice=list(ch))
+    except Exception as e:  # noqa: BLE001
+        issue("eq:default-vs-parsed-raises", f"{impl.exc_sig(e)} {e!r}")
     # ---- histories: hash / compare / assign (direct, nested, anonymous) in all orders up to depth 3: always equal to a fresh equal instance
     if n and n <= 3:
         _histories(cs, T, st, slots, res, issue, hashable, 3 if tier == "quick" else 4)
@@ -284,12 +338,14 @@ def _plain_eq(a, b):
     return a == b
 
 
-def _enc_vals(st, mv):
+def _enc_vals(st, mv, bo="little"):
     out = {}
     for f in st.fields:
         if f.name is None:
             for g in f.type.fields:
                 out[g.name] = mv[g.name]
+        elif f.type is UN17:
+            out[f.name] = codec.RawUnion(int(mv[f.name]).to_bytes(2, bo))
         else:
             out[f.name] = mv[f.name]
     return out
@@ -364,7 +420,7 @@ def jobs(tier):
     kmax = 4
     seqs = []
     for k in range(0, kmax + 1):
-        pool = KIND_LIST if (k <= 3 or tier == "thorough") else ["u8", "c2", "nest", "enum", "bits", "anon"]
+        pool = KIND_LIST if (k <= 3 or tier == "thorough") else ["u8", "c2", "nest", "enum", "bits", "anon", "un", "arrs"]
         for ks in itertools.product(pool, repeat=k):
             if sum(1 for x in ks if x == "anon") > 1:
                 continue
